@@ -1,6 +1,17 @@
 import PK.Properties.C15
+import PK.Properties.C15Replay
 #print axioms PK.C15_append_only
 #print axioms PK.C15_run_suffix
 #print axioms PK.C15_apply_suffix
 #print axioms PK.C15_deterministic
 #print axioms PK.C15_record_ante
+#print axioms PK.verifyCards_replay
+#print axioms PK.verifyShow_replay
+#print axioms PK.logged_form
+#print axioms PK.op_outcomes
+#print axioms PK.ops_frame
+#print axioms PK.ops_upd
+#print axioms PK.pushes_plain
+#print axioms PK.sim_step
+#print axioms PK.replay_inv
+#print axioms PK.C15_replay
